@@ -22,7 +22,7 @@ import vlib
 from vlib import f2b, fs2b, b2f, b2fs
 
 ID = "C01"
-GEN = ["Leaves", "Combinators", "Planar", "Misc", "Params", "Flows"]
+GEN = ["Leaves", "Combinators", "Planar", "Misc", "Params", "Flows", "TriangularGen"]
 RULE = ("expression trees over generated leaves (Affine/Loc/Scale with both signs, Exp, SoftPlus, Tanh, LeakyTanh, "
         "RationalQuadraticSpline with perturbed raw parameters) under generated Chain/Invert, depth<=3, evaluated by all "
         "four methods on boundary-directed inputs (interval ends, knots, ±max_val, tanh(max_val), ±1, 0, float neighbours, "
